@@ -432,6 +432,23 @@ fn anc_case<const N: usize>(rep: &Report, list: &[Msg]) {
                 if !ok {
                     return fail("message-differs", format!("message {i}: level {} type {} len {}", c.level(), c.ty(), c.len()));
                 }
+                // a typed read that needs more bytes than the message carries must be refused: the
+                // bytes behind the payload belong to padding, to the next message, or lie outside
+                // the buffer
+                let sz = m.size();
+                let too_big = [
+                    (1usize, c.data::<u8>().is_ok()),
+                    (4, c.data::<u32>().is_ok()),
+                    (16, c.data::<[u8; 16]>().is_ok()),
+                    (20, c.data::<[u8; 20]>().is_ok()),
+                    (64, c.data::<[u8; 64]>().is_ok()),
+                ];
+                for (want, ok) in too_big {
+                    if want > sz && ok {
+                        let pos = if i + 1 == pushed { "last-message" } else { "inner-message" };
+                        return fail(format!("read-beyond-payload:{pos}"), format!("message {i} carries {sz} bytes of data, yet data::<{want}-byte type>() returned Ok (it read {} bytes behind the payload)", want - sz));
+                    }
+                }
                 n += 1;
             }
             if n != pushed {
